@@ -161,3 +161,11 @@ def check_extra(ctx, rep):
             else:
                 rep.proved("R-C66-nocache", where, f"{len(calls)} reader call(s); not memoised, nothing derived stored in module/class state")
     rep.floor("functions calling a registry reader", n_sites, 8)
+
+    # a process-wide memo of (wrapped) decomposition rules keyed by names: rules of different contexts that share a name are conflated
+    from .. import memo
+
+    rep.rule("R-C66-memo", "no function of decomposition/ or ops/op_math/ memoises a value computed from a decomposition rule / operator under a key that "
+             "contains it only through projections such as its name: inside different local contexts the same name can denote different rules")
+    if not memo.report(ix, rep, "R-C66-memo", ("pennylane/decomposition/", "pennylane/ops/op_math/"), "decomposition rules"):
+        rep.proved("R-C66-memo", "decomposition/ and ops/op_math/", "no partial-key memo (a positive example is kept as a self-test variant)", nontrivial=False)
